@@ -149,10 +149,11 @@ def data_to_json(data: dict[str, Any]) -> str:
                 for variable_name, variable_item in item_generator():
                     # Check if serializable. If not, just include the
                     # string-representation of the object.
+                    # Keys of a dictionary are not necessarily strings (JSON object keys must be)
                     if is_json_serializable(variable_item):
-                        cloudpickle_serialization[variable_name] = variable_item
+                        cloudpickle_serialization[str(variable_name)] = variable_item
                     else:
-                        cloudpickle_serialization[variable_name] = str(variable_item)
+                        cloudpickle_serialization[str(variable_name)] = str(variable_item)
 
             serializable_data[data_key] = cloudpickle_serialization
     json_string = json.dumps(serializable_data, indent=4)
